@@ -205,6 +205,28 @@ def closure_consumer(fn, local):
     return None
 
 
+FACTS = [None]  # set by run.py: lets helpers follow closure captures into the parent body
+
+
+def resolve_capture(fn, capname):
+    """For a closure body: the expression (in the parent body) that was captured as `capname`: (parent_fn, expr)."""
+    facts = FACTS[0]
+    if facts is None or fn.b.get("kind") != "Closure":
+        return None
+    parent = fn.b.get("parent")
+    pb = facts.body(fn.b["crate"], parent) if parent else None
+    cands = [pb] if pb is not None else []
+    # after helper inlining the creation site may live in any body that absorbed the parent
+    if pb is None or not any(c[3] == fn.path for c in closure_creations(fn_of(pb))):
+        cands = [b for b in facts.bodies_of(fn.b["crate"])]
+    for b in cands:
+        pf = fn_of(b)
+        for c in closure_creations(pf):
+            if c[3] == fn.path and capname in c[4]:
+                return pf, pf.expr_of_operand(c[4][capname])
+    return None
+
+
 def spawn_closures(fn):
     """Closures built in this body (after helper inlining) that are handed to rayon's ThreadPool::spawn:
     [(bb, si, local, closure_path, captures, spawn_bb, spawn_term)]. Identified by role, not by path."""
